@@ -853,7 +853,9 @@ func paramReadsOutgoing(fn *ssa.Function, par *ssa.Parameter, depth int) bool {
 		}
 		ci := core.InfoOf(&call.Call)
 		fromPar := func(a ssa.Value) bool {
-			return core.OriginIs(a, func(o ssa.Value) bool { return core.ResolveFree(core.Strip(o)) == ssa.Value(par) })
+			return core.Strip(a) == ssa.Value(par) || core.OriginIs(a, func(o ssa.Value) bool {
+				return core.Strip(o) == ssa.Value(par) || core.ResolveFree(core.Strip(o)) == ssa.Value(par)
+			})
 		}
 		if ci.Is(metadataPkg+".FromOutgoingContext") && fromPar(call.Call.Args[0]) {
 			found = true
